@@ -55,6 +55,11 @@ TABLE = {
             "symbolic coefficients (values travel through the text file as tokens), for 0-d, size-1, n-d arrays, strided views, single-term polynomials, retained zero columns, "
             "delimiter/header/comments settings, paths and file objects; shape, names, exponents and coefficients must come back (proved equal under the path condition).",
             E1_NOTE + " S5/S9: token formatter for str(Sym); structured<->unstructured conversion by field copies for object dtype. Number formatting/parsing precision is outside.", E1_TECH),
+    "C15": ("model_checking", "E1 SymObj",
+            "The operation catalogue of the E1 drivers (construct, + - * **, call, align, derivative/gradient/hessian, indexing and shape functions, reductions, pickle/copy, lead_*, "
+            "division under default retain options, comparisons under the non-sort options, str/repr under the non-display options) is symbolically executed under a strength-2 covering array "
+            "of the 8 boolean options (all 256 settings in the thorough tier) plus display sign variants; each result is proved equal to the same option-independent exact model and no "
+            "operation may raise. Differences the retain options are documented to make (unused names / all-zero terms) are not verdicts.", E1_NOTE, E1_TECH),
     "C16": ("model_checking", "E1 SymObj",
             "Symbolic execution of array_repr/array_str/__str__/__repr__ with symbolic integer-like coefficients (so 0, 1, -1, negative leading terms are solver-chosen cases) under the 8 display_* "
             "boolean settings x alternative exponent/multiply signs; an independent recursive-descent reader evaluates the produced text over the exact model and must obtain the polynomial; "
@@ -67,6 +72,11 @@ TABLE = {
             "Trusted: CrossHair's models of dict/str/contextmanager. Two option keys stand for all (guarded by an AST check that option.py names no specific key). Unknown option names: a fully "
             "symbolic str (len<=4) is usually 'Not confirmed' within the budget and is then reported inconclusive; the claim for unknown names then rests on the concrete near-miss names.",
             "CrossHair symbolic execution (z3) of option.py over bounded call histories"),
+    "C17": ("model_checking", "E1 SymObj",
+            "Every E1 driver snapshots each argument before the call (shape, names, keys, dtype and the identity of every stored element, so any store is seen) and compares afterwards on every "
+            "path, returned or raised; a store counts only if the solver finds values for which the stored value differs from the old one. This check re-runs the whole catalogue for that verdict "
+            "and adds aliasing-prone groups: already aligned operands through every binary/unary function, raising calls, out=/copyto sources, str/repr with small-number suppression.",
+            E1_NOTE, E1_TECH),
     "C19": ("model_checking", "E1 SymObj",
             "Symbolic execution of lead_exponent/lead_coefficient (all graded/reverse flags), isconstant, tonumpy, todict, decompose, set_dimensions (targets 1..5), sortable_proxy and "
             "argmax/argmin/amax/amin without axis (all sort options) with symbolic coefficients incl. zero elements, equal leading terms and negative leading coefficients; oracle = exact "
